@@ -39,7 +39,7 @@ MERGE_PI = True
 
 def bounds(tier):
     return dict(shapes=[s.name for s in SHAPES[:NCUR]] + [s.name for s in PROPER] + ([f'{len(SHAPES) - NCUR} generated skeletons (2-3 states, 1-3 actions)'] if tier != 'quick' else []),
-                states='1..3 (4 for one goal-reaching shape)', actions='1..2 (3 in generated skeletons)', gammas=['1/2', '9/10', '1'], vi_sweeps=(5 if tier == 'quick' else 6),
+                states='1..3 (4 for one goal-reaching shape)', actions='1..2 (3 in generated skeletons)', gammas=['1/2', '9/10', '1'], vi_sweeps=5,
                 pi_rounds='|A|^S + 1', rewards='[-1,1] symbolic ([-1,0] at gamma=1)', residual='(0,1] symbolic')
 
 
@@ -573,8 +573,23 @@ def sticky_state(sx, planner, gamma):
 
 
 def jobs(tier):
+    if tier != 'quick':
+        # thorough = every case of the quick tier + the generated skeletons + discount 9/10 for the symbolic-probability skeleton.
+        # (Deeper unrollings, policy iteration on the dense 3-state skeleton and the four-state goal-reaching skeleton with a
+        # never-terminating extra state were tried for this tier and did not finish within an hour on 16 cores.)
+        o = dict(timeout_ms=60000, budget_s=1200, max_paths=6000)
+        for i in range(NCUR, len(SHAPES)):
+            yield ('vi_step', dict(shape=i, gamma='9/10'), o)
+            yield ('vi_discounted', dict(shape=i, gamma='1/2', version='vectorized', K=4), o)
+            if SHAPES[i].S * SHAPES[i].A <= 4:
+                yield ('vi_discounted', dict(shape=i, gamma='1/2', version='dict', K=3), o)
+                yield ('pi_discounted', dict(shape=i, gamma='1/2'), dict(o, cost=5))
+        for pl in ['vi-vectorized', 'vi-dict', 'pi']:
+            yield ('sticky_state', dict(planner=pl, gamma='9/10'), o)
+        yield from jobs('quick')
+        return
     quick = tier == 'quick'
-    o = dict(timeout_ms=60000, budget_s=600 if quick else 3000, max_paths=6000)
+    o = dict(timeout_ms=60000, budget_s=600 if quick else 1200, max_paths=6000)
     gam = [F(1, 2), F(9, 10)]
     dense = {4, 5}
     if not quick:
@@ -593,15 +608,15 @@ def jobs(tier):
                 if quick:
                     K = 3 if i in dense else (4 if ver == 'dict' else 5)
                 else:
-                    K = (3 if ver == 'dict' else 4) if i in dense else (5 if ver == 'dict' else 6)
+                    K = 3 if i in dense else (4 if ver == 'dict' else 5)      # (as in the quick tier: deeper unrollings did not finish within an hour; the thorough tier adds skeletons and variants instead)
                 direct = (i not in dense)      # (dense skeletons: the distance to V* follows from the proved residual by the contraction lemma)
-                if quick and i in dense and ver == 'dict' and g != F(1, 2):
+                if i in dense and ver == 'dict' and g != F(1, 2):
                     continue
                 yield ('vi_discounted', dict(shape=i, gamma=gs, version=ver, K=K, direct=direct), dict(o, cost=10 if i in dense else 1))
-            if not (quick and i == 5):
-                yield ('pi_discounted', dict(shape=i, gamma=gs, direct=(i in (0, 1, 3)) or (not quick and i not in dense)), dict(o, cost=5))
-        if not (quick and i in dense):
-            yield ('vi_versions_agree', dict(shape=i, gamma='1/2', K=3 if quick else 5), o)
+            if i != 5:      # (policy iteration on the dense 3-state skeleton 'full3': more than an hour)
+                yield ('pi_discounted', dict(shape=i, gamma=gs, direct=(i in (0, 1, 3))), dict(o, cost=5))
+        if i not in dense:
+            yield ('vi_versions_agree', dict(shape=i, gamma='1/2', K=3), o)
     for order in ['AB', 'BA']:
         yield ('pi_batch', dict(order=order), o)
         yield ('pi_batch', dict(order=order, mixed_discount=True), o)
@@ -611,15 +626,18 @@ def jobs(tier):
     yield ('vi_discounted', dict(shape=3, gamma='1/2', version='vectorized', K=4, lab='str'), o)
     yield ('vi_discounted', dict(shape=3, gamma='1/2', version='dict', K=3, lab='mixed'), o)
     yield ('pi_discounted', dict(shape=3, gamma='1/2', lab='str'), o)
-    for i in ([1, 3] if quick else range(NCUR)):
+    for i in ([1, 3] if quick else [k for k in range(NCUR) if k not in dense]):
         yield ('vi_discounted', dict(shape=i, gamma='1/2', version='vectorized', K=4, warm=True), o)
         yield ('vi_discounted', dict(shape=i, gamma='1/2', version='dict', K=3, warm=True), o)
         yield ('pi_discounted', dict(shape=i, gamma='1/2', warm=True), o)
     for i, sh in enumerate(PROPER):
-        if quick and sh.S > 3:
+        if sh.S > 3:
+            if not quick:      # the 4-state goal-reaching skeleton: plain runs only
+                for ver in ['vectorized', 'dict']:
+                    yield ('vi_undiscounted', dict(shape=i, version=ver, K=4), o)
             continue
         for ver in ['vectorized', 'dict']:
-            K = 4 if quick else 6
+            K = 4
             yield ('vi_undiscounted', dict(shape=i, version=ver, K=K), o)
             yield ('vi_undiscounted', dict(shape=i, version=ver, K=K, extra_dead=True), o)
             yield ('vi_undiscounted', dict(shape=i, version=ver, K=K, extra_dead=True, wide_dead=True), o)
@@ -627,4 +645,4 @@ def jobs(tier):
                 for un in ['-inf', 'inf']:
                     for dp in ['1/2', '0']:
                         yield ('vi_undiscounted', dict(shape=i, version=ver, K=K, extra_dead=True, undef=un, dead_prob=dp), o)
-        yield ('pi_undiscounted', dict(shape=i, direct=(i == 0) or not quick), o)
+        yield ('pi_undiscounted', dict(shape=i, direct=(i == 0) or (not quick and sh.S <= 3)), o)
